@@ -385,7 +385,7 @@ impl Counts {
 
 fn drive_lru(a: &Args, tr: &mut Tracer, per_subject: &mut serde_json::Map<String, Value>) {
     let rng0 = Rng::new(a.seed);
-    let (runs, steps) = if a.thorough() { (12, 120) } else { (3, 45) };
+    let (runs, steps) = if a.thorough() { (8, 120) } else { (3, 45) };
     for name in lru_subjects().iter().filter(|s| a.wants(s)) {
         let mut c = Counts::default();
         for cap in 1..=4usize {
@@ -572,7 +572,7 @@ fn pattern(g: u64, i: u64) -> u8 {
 }
 
 fn pc_subjects() -> Vec<String> {
-    ["pc:lru_balanced", "pc:lru_perf", "pc:lru_mem", "pc:lru_sec", "pc:lru_batch", "pc:lru_rwp", "pc:single_read", "pc:single_read_new"]
+    ["pc:lru_balanced", "pc:lru_perf", "pc:lru_mem", "pc:lru_sec", "pc:lru_shards_8", "pc:lru_batch", "pc:lru_rwp", "pc:single_read", "pc:single_read_new"]
         .iter()
         .map(|s| s.to_string())
         .collect()
@@ -661,6 +661,7 @@ fn make_pc(var: &str, cap_pages: usize) -> Option<Pc> {
         "lru_perf" => PageCacheConfig::performance_optimized().with_huge_pages(false),
         "lru_mem" => PageCacheConfig::memory_optimized(),
         "lru_sec" => PageCacheConfig::security_optimized(),
+        "lru_shards_8" => PageCacheConfig::balanced().with_shards(8).with_prefetch(false).with_statistics(false),
         _ => PageCacheConfig::balanced(),
     }
     .with_capacity(cap);
